@@ -130,7 +130,7 @@ PROPS["C01"] = {
 
 PROPS["C14"] = {
     "world": "ring", "level": "exploration", "quick_s": 20, "thorough_s": 480,
-    "rule": "one evaluation = one lifecycler-driven ring history over a tiny token alphabet (0, 1, 2, 3, 7, 2^31, 2^31+-1, 2^32-4..2^32-1) in 1..4 zones; on every ring version a fresh zone-aware client with RF = number of zones reports GetTokenRangesForInstance for every instance: membership of every boundary key is compared with the owner of that key in the instance's zone (first token strictly after the key), the ranges of a zone must tile [0, 2^32-1] exactly, and on all-ACTIVE healthy rings the real lookup is cross-checked; (scenario 'partition-ranges' in the PART world covers partitions); non-trivial = a state in which some instance owns token 0, 1 or 2^32-1; distinct = distinct released-task/action sequence hash among non-trivial runs",
+    "rule": "one evaluation = one lifecycler-driven ring history over a tiny token alphabet (0, 1, 2, 3, 7, 2^31, 2^31+-1, 2^32-4..2^32-1) in 1..4 zones; on every ring version a fresh zone-aware client with RF = number of zones reports GetTokenRangesForInstance for every instance: membership of every boundary key is compared with the owner of that key in the instance's zone (first token strictly after the key), the ranges of a zone must tile [0, 2^32-1] exactly, and on all-ACTIVE healthy rings the real lookup is cross-checked; scenario 'partition-ranges' (real partition lifecyclers + editor + operator-written partitions over the same tiny alphabet) checks GetTokenRangesForPartition of every partition on every stored version the same way (membership vs. owner of the first token strictly after the key, exact tiling, cross-check with ActivePartitionForKey on all-active rings); non-trivial = a state in which some instance owns token 0, 1 or 2^32-1; distinct = distinct released-task/action sequence hash among non-trivial runs",
     "real": _RING_CLIENT_REAL, "stub": _RING_STUB + ["fresh ring clients read the observed descriptor from a static kv.Client"],
     "assumptions": _ASSUME_COMMON + ["input-shaped property: no schedule dimension of its own; it is evaluated as a cross-invariant on the ring states the simulated lifecyclers and operator reach (DESIGN.md section 6)"],
     "level_text": "seeded exploration of reachable ring states over a boundary-biased token alphabet; ranges vs. ownership and exact tiling checked per state; sampling, not proof",
@@ -189,7 +189,7 @@ PROPS["C05"] = {
 
 PROPS["C12"] = {
     "world": "ring", "level": "exploration", "quick_s": 25, "thorough_s": 600,
-    "rule": "one evaluation = one ring history (2..8 lifecyclers joining, leaving, toggling read-only; up to 8 operator-written instances with truthful registration / read-only times; 1..4 zones, zone-awareness on/off; clock advances up to 9 minutes) observed by fresh cache-less clients at every ring version: for 3 identifiers x sizes {0,1,2,3,4,6,n,n+2}: same content => same shard; size = request rounded up to a multiple of the zones, even per zone, fewer only where a zone lacks eligible instances; no read-only member; shard(size) within shard(size+zones); single-instance registration / removal changes a shard by at most one instance; every shard is recorded with its virtual time and ShuffleShardWithLookback (windows 30 s, 2 min, 10 min) must contain every still-registered instance recorded inside the window; (the PART world scenario covers the partition ring); non-trivial = a look-back query whose window contains a membership or read-only change; distinct = distinct released-task/action sequence hash among non-trivial runs",
+    "rule": "one evaluation = one ring history (2..8 lifecyclers joining, leaving, toggling read-only; up to 8 operator-written instances with truthful registration / read-only times; 1..4 zones, zone-awareness on/off; clock advances up to 9 minutes) observed by fresh cache-less clients at every ring version: for 3 identifiers x sizes {0,1,2,3,4,6,n,n+2}: same content => same shard; size = request rounded up to a multiple of the zones, even per zone, fewer only where a zone lacks eligible instances; no read-only member; shard(size) within shard(size+zones); single-instance registration / removal changes a shard by at most one instance; every shard is recorded with its virtual time and ShuffleShardWithLookback (windows 30 s, 2 min, 10 min) must contain every still-registered instance recorded inside the window; scenario 'partition-shards' checks PartitionRing.ShuffleShard* on every stored version of a partition ring driven by real lifecyclers, an editor and an operator: determinism, exactly min(size, active) active partitions, nesting, at most one partition moved when one active partition is added or removed, look-back superset over recorded shards incl. windows starting exactly in the second of a state change; non-trivial = a look-back query whose window contains a membership or read-only change; distinct = distinct released-task/action sequence hash among non-trivial runs",
     "real": _RING_CLIENT_REAL, "stub": _RING_STUB + ["fresh ring clients read the observed descriptor from a static kv.Client"],
     "assumptions": _ASSUME_COMMON + ["look-back histories are restricted to what the ring can know, as the statement says: registrations and read-only switches carry correct timestamps, a registered instance does not change its tokens inside the window", "eligible instances of a zone: between 'not read-only with tokens' and 'not read-only' (the statement does not say whether token-less instances count)"],
     "level_text": "seeded exploration of membership histories with per-version shard oracles and a history oracle for look-back; sampling, not proof",
@@ -205,6 +205,18 @@ PROPS["C13"] = {
     "level_text": "seeded differential exploration: long-lived cached client vs. fresh cache-less client on the same content at the same instant, over random update/query histories with scheduler-controlled watch delivery and (second scenario) lock-point interleavings of concurrent readers; sampling, not proof",
     "level_note": "trusted: simulator engine, simkv watch seam (records exactly the value handed to the client's callback), the fresh client as reference (its own correctness is C01/C12/C14)",
     "design_ref": "DESIGN.md section 5 C13",
+}
+
+_PART_REAL = ["ring.PartitionInstanceLifecycler", "ring.PartitionRingEditor", "ring.PartitionRing (routing, shards, token ranges)", "ring.ActivePartitionBatchRing", "ring.PartitionInstanceRing / MultiPartitionInstanceRing", "consul in-memory store with the partition-ring codec"]
+_PART_STUB = ["kv seam (worlds/simkv)", "operator writing truthful partitions with small token sets", "instance ring reader (table of healthy / unhealthy / unknown owners)"]
+PROPS["C15"] = {
+    "world": "ring", "level": "exploration", "quick_s": 25, "thorough_s": 600,
+    "rule": "one evaluation = one history of 20..120 steps: 1..4 real partition lifecyclers (partitions 0..2, so partitions are shared; wait-owners 0..2 for 0/10/30 s; deletion delay off/20 s/2 min; polling 1/5 s; single- or multi-partition ownership; create-on-startup and remove-owner-on-shutdown drawn) plus an editor (state changes incl. illegal ones, lock/unlock, owner removal) on a ring that an operator pre-populated with 0..16 partitions in all states over a tiny token alphabet (0, 1, 2, 3, 7, 2^31, 2^31+-1, 2^32-4..2^32-1); starts, stops, restarts, explicit state changes, forced CAS retries, lost acks, rejected writes, clock advances 1 s..2 min; every CAS is two scheduling points. Every committed version is attributed to its writer and checked (edge table, lock, creation state, promotion and deletion conditions with the writer's configuration and the commit's virtual time, own-partition exemption); on every version a fresh PartitionRing routes every boundary key (token-1, token, token+1, 0, 2^32-1; <= 64) and the result is compared with a reference walk, incl. ActivePartitionBatchRing.Get and GetKeysByPartition; per-partition replication sets are compared with the healthy registered owners over a drawn instance table; after the faults stop the clock runs for 3 min 10 s and pending partitions with enough old owners must be active, abandoned inactive partitions deleted; non-trivial = at least 4 commits and (an automatic promotion or deletion happened or a routed ring had at least 3 partitions with active and non-active ones); distinct = distinct released-task/action sequence hash among non-trivial runs",
+    "real": _PART_REAL, "stub": _PART_STUB,
+    "assumptions": _ASSUME_COMMON + ["a Pending->Active commit made while the writer has an explicit ChangePartitionState call in flight is treated as explicit (not subject to the owner-count condition)", "bounded progress is only demanded for unlocked partitions and lifecyclers that are running at the end"],
+    "level_text": "seeded exploration of lifecycler/editor histories with per-commit attribution and per-version routing / replication-set reference checks; bounded progress after faults stop; sampling, not proof",
+    "level_note": "trusted: simulator engine, simkv commit attribution, the reference walk and the condition arithmetic written from the statement",
+    "design_ref": "DESIGN.md section 5 C15",
 }
 
 HOOK_COMMITS = []
